@@ -510,8 +510,9 @@ impl<T: Config> UdpProtocol<T> {
 
         // we should never have so much pending input for a remote player (if they didn't ack, we should stop at MAX_PREDICTION_THRESHOLD)
         // this is a spectator that didn't ack our input, we just disconnect them
-        if self.pending_output.len() > PENDING_OUTPUT_SIZE {
+        if self.pending_output.len() > PENDING_OUTPUT_SIZE && !self.disconnect_event_sent {
             self.event_queue.push_back(Event::Disconnected);
+            self.disconnect_event_sent = true;
         }
 
         self.send_pending_output(connect_status);
